@@ -1,7 +1,7 @@
 """C13 - A restarted stateful algorithm continues exactly like one that never stopped."""
 import c03
 
-LEVEL = 'exploration'
+LEVEL = 'model_checking'
 
 
 def run(ctx):
